@@ -540,6 +540,16 @@ func bodyC24(c c24Case, x *vkit.Ctx) {
 
 	// ---- end of session: let everything the agent did become visible
 	if !agentLeft {
+		if st := r.agent.Serf().State(); st != serf.SerfAlive {
+			for _, snt := range s.sent {
+				if snt.effect == "leave" && snt.gated {
+					x.Violationf("leave-before-gate", "a leave request (op %d, seq %d) sent while the gate was closed took effect: serf state %v", snt.idx, snt.seq, st)
+					return
+				}
+			}
+			x.Inconclusive("serf not alive although no leave was issued")
+			return
+		}
 		if err := r.agent.UserEvent("zz-sentinel", nil, false); err != nil {
 			x.Inconclusive("sentinel event failed: " + err.Error())
 			return
